@@ -24,7 +24,7 @@ from optilint.cfg import cfg_of
 from optilint.model import dotted, walk_local
 from optilint.core import Incomplete
 from optilint.expr import Algebra, NotPolynomial
-from .common import src, expand, same, calls_in, actual, single_def, def_value, const_value
+from .common import Unifier, src, expand, same, calls_in, actual, single_def, def_value, const_value
 
 LEVEL = "other"
 RULE_TEXT = ("obligations = (store in a merge loop x lossless form) + (offset argument x index kind) + (Exodus record x number of "
@@ -590,18 +590,16 @@ def d2_permutation(ctx):
                bad_detail=f"exodusToNativeTri6NodeOrder = {perm} is not a permutation of 0..5: nodes would be duplicated or lost")
     # native tables at degree 2 from make_parent_element_2d
     mk = ctx.need(f"{IP}:make_parent_element_2d")
-    env = {"degree": 2}
-    tables = {}
     try:
-        for st in mk.node.body:
-            if isinstance(st, ast.Assign) and isinstance(st.targets[0], ast.Name):
-                nm = st.targets[0].id
-                if nm in ("nPoints", "ii", "jj", "kk", "vertexPoints", "facePoints"):
-                    env[nm] = _fold_int_lists(st.value.args[0] if nm in ("vertexPoints", "facePoints") and isinstance(st.value, ast.Call) else st.value, env)
-        vertex = env["vertexPoints"]
-        faces = env["facePoints"]
-    except (ValueError, KeyError, IndexError) as ex:
-        ctx.undecided(rule, mk, None, construct="parent-element-tables", detail=f"cannot fold the vertex/face table formulas at degree 2: {ex}")
+        from . import parentelem
+        rec, _I = parentelem.build(ctx.repo, "make_parent_element_2d", 2)
+        vertex = parentelem._ints(rec.get("vertexNodes"))
+        flat = parentelem._ints(rec.get("faceNodes"))
+        faces = [flat[0:3], flat[3:6], flat[6:9]]
+        if len(flat) != 9 or len(vertex) != 3:
+            raise ValueError(f"unexpected table sizes {len(vertex)}, {len(flat)}")
+    except Exception as ex:
+        ctx.undecided(rule, mk, None, construct="parent-element-tables", detail=f"cannot evaluate the vertex/face tables at degree 2: {ex}")
         return
     ctx.extra_cov["tri6_tables"] = {"vertexNodes": vertex, "faceNodes": faces, "perm": perm}
     if sorted(perm) != list(range(6)):
@@ -688,7 +686,12 @@ def d3_elevation(ctx):
                 if len(idx) == 2:
                     el = expand(cfg, nd, idx[0])
                     mn = expand(cfg, nd, idx[1])
-                    ok = same(el, f"edge[{side_col - 1}]") and f"faceNodes[edge[{side_col}]]" in src(mn) and "interiorNodes" in src(mn)
+                    # the loop variable that holds the edge record (second target of `for e, edge in enumerate(edges)`)
+                    ev_ = "edge"
+                    for h in nd.loops:
+                        if isinstance(h.ast.target, ast.Tuple) and len(h.ast.target.elts) == 2 and isinstance(h.ast.target.elts[1], ast.Name):
+                            ev_ = h.ast.target.elts[1].id
+                    ok = same(el, f"{ev_}[{side_col - 1}]") and f"faceNodes[{ev_}[{side_col}]]" in src(mn) and "interiorNodes" in src(mn)
                     shown = f"conns.at[{src(el)}, {src(mn)}]"
                 ctx.decide(rule, ok, sc, nd.ast, construct=f"{nm}-store-uses-own-element-and-side",
                            detail=shown[:110], bad_detail=f"{nm} store addresses `{shown[:120]}`; expected element edge[{side_col - 1}] and face row edge[{side_col}]")
@@ -759,13 +762,19 @@ def d3_elevation(ctx):
                bad_detail=f"interior node numbers start after `{shown}`, which is not (number of edges) x (new nodes per edge = {per_edge!r}): "
                           f"numbers would collide with edge nodes or leave gaps")
     # coordinates stacked in numbering order
-    for n in cfg.nodes:
-        if n.kind == "stmt" and isinstance(n.ast, ast.Assign) and isinstance(n.ast.targets[0], ast.Name) and n.ast.targets[0].id == "coords":
-            v = n.ast.value
-            ok = isinstance(v, ast.Call) and (dotted(v.func) or "").endswith("vstack") and isinstance(v.args[0], ast.Tuple) and \
-                [src(x).split(".")[0].split("(")[0] for x in v.args[0].elts] == ["mesh", "edgeCoords", "interiorCoords"]
-            ctx.decide(rule, ok, sc, n.ast, construct="coords-stacked-in-numbering-order", detail=src(v)[:100],
-                       bad_detail=f"coordinates stacked as `{src(v)[:110]}`; node numbers are vertices, then edge nodes, then interior nodes")
+    u = Unifier(sc)
+    mp = sc.params()[0]
+    ok = False
+    stk = None
+    e_st = [st for st in ast.walk(sc.node) if isinstance(st, ast.Assign) and isinstance(st.targets[0], ast.Tuple) and "create_edges" in src(st.value)]
+    if len(e_st) == 1 and u.match(e_st[0], ast.parse(f"edgeConns, edges = create_edges({mp}.conns)").body[0]):
+        a1 = u.assigns(f"vmap(lambda edgeConn: np.dot(A, {mp}.coords[edgeConn, :]))(edgeConns)", target="edgeCoords")
+        a2 = u.assigns(f"vmap(lambda triConn: np.dot(A, {mp}.coords[triConn]))({mp}.conns)", target="interiorCoords")
+        stk = u.assigns(f"np.vstack(({mp}.coords, edgeCoords.reshape(-1, 2), interiorCoords.reshape(-1, 2)))", target="coords")
+        ok = len(a1) == 1 and len(a2) == 1 and len(stk) == 1
+    vst = [st for st in ast.walk(sc.node) if isinstance(st, ast.Assign) and isinstance(st.value, ast.Call) and (dotted(st.value.func) or "").endswith("vstack")]
+    ctx.decide(rule, ok, sc, (stk[0] if stk else (vst[0] if vst else None)), construct="coords-stacked-in-numbering-order", detail="vstack((vertices, edge nodes, interior nodes))",
+               bad_detail=f"coordinates stacked as `{src(vst[0].value)[:110] if vst else '?'}`; node numbers are vertices, then edge nodes (from the edge connectivity), then interior nodes")
     # interior-node affine map convention == FunctionSpace.map_element_shape_grads convention
     fsmap = ctx.need("optimism.FunctionSpace:map_element_shape_grads")
     fcfg = cfg_of(fsmap)
@@ -773,12 +782,15 @@ def d3_elevation(ctx):
             and (dotted(n.ast.value.func) or "").endswith("column_stack")]
     conv = None
     if len(jdef) == 1 and isinstance(jdef[0].ast.value.args[0], ast.Tuple) and len(jdef[0].ast.value.args[0].elts) == 2:
-        cols = [src(c) for c in jdef[0].ast.value.args[0].elts]
+        vn_ = [n_.ast.targets[0].id for n_ in fcfg.nodes if n_.kind == "stmt" and isinstance(n_.ast, ast.Assign) and "vertexNodes" in src(n_.ast.value)
+               and isinstance(n_.ast.targets[0], ast.Name)]
+        vn_ = vn_[0] if vn_ else "v"
+        cols = [src(c).replace(f"{vn_}[", "v[") for c in jdef[0].ast.value.args[0].elts]
         conv = cols          # ['v[0] - v[2]', 'v[1] - v[2]']
     inter = []
     for m in cfg.nodes:
-        if m.kind == "stmt" and isinstance(m.ast, ast.Assign) and isinstance(m.ast.value, ast.Call) and "interior" in src(m.ast.targets[0]).lower() \
-                and "mesh.conns" in src(m.ast.value):
+        if m.kind == "stmt" and isinstance(m.ast, ast.Assign) and isinstance(m.ast.value, ast.Call) and isinstance(m.ast.targets[0], ast.Name) \
+                and m.ast.targets[0].id == u.actual("interiorCoords") and f"{mp}.conns" in src(m.ast.value):
             for nm in {x.id for x in ast.walk(m.ast.value) if isinstance(x, ast.Name)}:
                 ds = cfg.reaching(m, nm)
                 if len(ds) == 1 and ds[0].kind == "stmt" and isinstance(ds[0].ast, ast.Assign) and isinstance(ds[0].ast.value, ast.Call) \
